@@ -3,7 +3,7 @@
    Every predicate used in a statement is defined in Model.v (accepted / wf_prog, ref_sem, tgt_sem, compile,
    stack_run, run_discipline), Facts.v (generator_facts) or CloseIndex.v (visit_close_all). *)
 From Coq Require Import List.
-From C15 Require Import Gen Model Facts Proofs Discipline NoFuel CloseIndex.
+From C15 Require Import Gen Model Facts Proofs Discipline NoFuel CloseIndex InGoto.
 From Coq Require Import Sorted Permutation.
 Import ListNotations.
 
@@ -52,8 +52,8 @@ Theorem C15_unreached_defer_never : forall p x, accepted p = true ->
 Proof. exact unreached_defer_never. Qed.
 Print Assumptions C15_unreached_defer_never.
 
-Theorem C15_return_value_fixed_before_cleanup : forall lp e rest ds fin x,
-  rstmts lp (BCons (Return e) rest) ds fin x = run_defers ds (Ret (length (tr x))) (emit (EvR e) x).
+Theorem C15_return_value_fixed_before_cleanup : forall lp es rest ds fin x,
+  rstmts lp (BCons (Return es) rest) ds fin x = run_defers ds (Ret (fst (evalxs es x))) (snd (evalxs es x)).
 Proof. exact return_value_fixed_before_cleanup. Qed.
 Print Assumptions C15_return_value_fixed_before_cleanup.
 
@@ -74,3 +74,12 @@ Theorem C15_visit_close_any_order : forall order, NoDup order ->
   Sorted lt (visit_close_all order) /\ Permutation (visit_close_all order) order.
 Proof. exact visit_close_any_order. Qed.
 Print Assumptions C15_visit_close_any_order.
+
+(* the `goto <doexprlabel>` of an `in` is omitted by the model compiler (whose rule [omit_goto] is the scraped
+   rule of visitors.In) only where control falls from the `in` to the end of the do-expression: every goto-less
+   `in` is the last statement of its do-expression's own block.  (The target semantics itself treats both
+   forms of `in` alike; this is the syntactic half of the argument - false for a rule that omits the goto at
+   every tail position.) *)
+Theorem C15_in_goto_placement : forall p, forallb nf (compile p) = true.
+Proof. exact in_goto_placement. Qed.
+Print Assumptions C15_in_goto_placement.
